@@ -117,6 +117,12 @@ pub fn gen(seed: u64, tier: Tier, k: u64) -> Value {
             }
         }
     }
+    // some sequences end on a compressed cluster holding one incompressible content just below a byte-width boundary (its
+    // stored size is larger than its plain size and crosses the boundary)
+    if seq % 5 == 1 {
+        items.push(Item { len: 4 * 1024 * 1024 + 1, ent: Ent::Low4, hint: Hint::Yes, src: Src::Mem, dup_of: None, cat_of: None });
+        items.push(Item { len: *rng.pick(&[250usize, 253, 65_530, 65_533]), ent: Ent::High, hint: Hint::Yes, src: Src::Mem, dup_of: None, cat_of: None });
+    }
     // some sequences end on clusters that are still open at finalize and hold nothing but empty contents
     if seq % 4 >= 2 {
         for _ in 0..rng.range(1, 4) {
